@@ -122,7 +122,7 @@ CLAIMED['C16'] = dict(
          'over the history through one invariant): fires_at_most_once, fires_with_matching_tid (TCP), fifo_order + fifo_reply_oldest '
          '(serial), delivered_reply_is_the_arrived_one, unsolicited_dropped / duplicate_dropped / reply_keeps_others, '
          'lost_fails_all_pending (re-entrant requests issued inside connectionLost included), after_loss_every_execute_fails + '
-         'after_loss_history, no_exception, C16_fifo (whole property, serial variant), C16_dict_partial / distinct_ids_partial / '
+         'after_loss_history, after_close_every_execute_fails + lost_after_close_fails_all_pending + close_then_lost (a local close() anywhere in the history), no_exception, C16_fifo (whole property, serial variant), C16_dict_partial / distinct_ids_partial / '
          'no_deferred_lost_partial (TCP variant while no outstanding request sees 65536 further executes) and '
          'distinct_ids_counterexample / C16_dict_counterexample (the full statement is false at the 16-bit wrap: known finding '
          'tid-wrap-overwrite). The model is compared event by event with the real ModbusClientProtocol / ModbusSerClientProtocol / '
@@ -131,7 +131,7 @@ CLAIMED['C16'] = dict(
     design='6/C16', technique='Lean 4 invariant proof over operation histories of a re-entrant state machine + differential correspondence',
     note='Modelled not verified: Twisted runs callbacks synchronously (Deferred semantics, checked by the trace comparison); the '
          'framer is abstracted to "a complete reply frame with transaction id t arrives" (framing itself is C03/C06/C07); the '
-         'application re-enters only execute. close() and the reconnecting factory policy are out of scope.')
+         'application re-enters only execute. close() is an operation of the model (flag cleared, transport.close() if the transport has one, nothing failed); the later connectionLost of the transport is a separate operation. The reconnecting factory policy is out of scope.')
 
 TXN_NOTE = ('Modelled not verified: the transport (OS sockets, serial port, real time) is the scripted peer of harness/txnlib.py - one '
             'reaction per transmission (reply bytes now, bytes that arrive after the attempt, send / receive failure, peer close), stream '
@@ -211,29 +211,31 @@ CLAIMED['C15'] = dict(
     text='Kernel-checked, for ANY number of threads, ANY number of transactions per thread, ANY schedule (pre-emption before every '
          'operation: client-lock acquire, connect check, connect open, manager-lock acquire, tid++, connect, flush of the input, each '
          'of the two writes of a frame, every poll, each recv, process, both releases), a client that is connected OR NOT when the '
-         'threads start, and ANY fate of the connection attempts (the k-th create_connection accepted or refused), with the lock '
+         'threads start, ANY fate of the connection attempts (the k-th create_connection accepted or refused) and ANY set of LOST '
+         'replies (the peer stays silent for a request: short read, connection closed, re-opened by the next call), with the lock '
          'discipline a parameter of the model. Under the shipped discipline (client lock around connect + transaction, manager lock '
-         'nested): C15_full = Serialised (mutual_exclusion: at most one thread between its send and the end of its receive in every '
-         'reachable state; frames_contiguous; own_reply_or_refused: every caller gets the reply built for its own request - its '
-         'transaction id, unit and data - or, only when a connection attempt was refused, the connection exception; never a foreign '
-         'reply, never an error object) and NeverStuck (no_deadlock: some thread can always move; fair_schedule_finishes: k rounds each '
-         'giving every thread a turn, k >= total operations, end with every thread finished and every request answered); own_reply / '
-         'finished_all_served when every attempt succeeds; results_in_request_order, finished_all_answered, '
-         'connection_never_replaced, every_move_is_progress, reentrant_acquire_never_blocks; by induction over the schedule with the '
-         'invariant "holder of the client lock = the only thread inside execute and the transport is exactly where its transaction '
-         'left it". generated_lock_scope: the source, read by ast on every run, has that discipline at both lock sites. Named mutants '
-         'without the property: lock_leak_counterexample / leakOnFail_deadlocks (client lock not given back when the connect fails: '
-         'a deadlock; seeded C15-02), connect_race_counterexample / connectOutside_not_serialised (code before the repair of '
-         'connect-outside-lock), none / perKey / perKey_foreign_reply / sendOnly counterexamples. Real threads on the real '
-         'ModbusTcpClient (in-memory socket/select/time, scripted connection refusals, both locks instrumented from outside) run under '
-         'a deterministic cooperative scheduler for all schedules of 2..4 threads x 1..3 transactions (DFS, capped) plus random '
-         'schedules, each run checked against the property directly (deadlock included) and against the model.',
+         'nested): C15_full = Serialised (mutual_exclusion; frames_contiguous; caller_gets_its_due: every caller gets the reply built '
+         'for its own request - its transaction id, unit and data - or, only when its own reply was lost, its own error object, or, '
+         'only when a connection attempt was refused, the connection exception; never a foreign reply) and NeverStuck (no_deadlock; '
+         'fair_schedule_finishes: k rounds each giving every thread a turn, k >= total operations, end with every thread finished and '
+         'every request answered); own_reply, error_only_if_own_reply_lost, finished_all_served, results_in_request_order, '
+         'finished_all_answered, socket_replaced_only_when_idle (a socket is installed only while no transaction is in flight), '
+         'socket_is_newest_connection, every_move_is_progress, reentrant_acquire_never_blocks; by induction over the schedule with the '
+         'invariant "holder of the client lock = the only thread inside execute and the newest connection is exactly where its '
+         'transaction left it". generated_lock_scope: the source, read by ast on every run, has that discipline at both lock sites. '
+         'Named mutants without the property: lockOnlyWhenCold_counterexample / _not_serialised (client lock only when no socket is '
+         'seen: after a lost reply the reconnect inside _transact races with the locked connect; seeded C15-03), '
+         'lock_leak_counterexample / leakOnFail_deadlocks (seeded C15-02), connect_race_counterexample / connectOutside_not_serialised '
+         '(code before the repair of connect-outside-lock), none / perKey / perKey_foreign_reply / sendOnly counterexamples. Real '
+         'threads on the real ModbusTcpClient (in-memory socket/select/time, scripted connection refusals and lost replies, both locks '
+         'instrumented from outside) run under a deterministic cooperative scheduler for all schedules of 2..4 threads x 1..3 '
+         'transactions (DFS, capped) plus random schedules, each run checked against the property directly and against the model.',
     design='6/C15', technique='Lean 4 invariant proof over schedules of a lock-parametric thread model + systematic schedule enumeration of the real code',
     note='Partial only in the sense of the design: pre-emption is exhibited at the yield points (every transport operation, every poll, '
          'lock acquire/release; the model allows it between any two operations); pre-emption inside a Python bytecode sequence and '
-         'GIL effects are not exhibited. Connection failures are refusals of create_connection; a peer that stops answering is not '
-         'modelled here (C13). The locks are observed from outside by replacing manager._transaction_lock and client._connect_lock with '
-         'instrumented wrappers around whatever objects the code created. Fixed finding: connect-outside-lock.')
+         'GIL effects are not exhibited. Faults are refused connection attempts and replies that never arrive; a reply that arrives '
+         'late is not modelled here (C13). The locks are observed from outside by replacing manager._transaction_lock and '
+         'client._connect_lock with instrumented wrappers around whatever objects the code created. Fixed finding: connect-outside-lock.')
 
 PENDING_REASON = 'check not built yet in this revision (work in progress; planned per DESIGN.md section 6)'
 
